@@ -80,20 +80,24 @@ impl std::hash::Hasher for IntHasher {
 
 #[derive(Debug, Clone, Copy)]
 pub struct DurationTimeout {
-    deadline: Instant,
+    /// `None`: the deadline is too far away to be represented, the limit never expires
+    deadline: Option<Instant>,
 }
 
 impl DurationTimeout {
     pub fn new(duration: Duration) -> Self {
         Self {
-            deadline: Instant::now() + duration,
+            deadline: Instant::now().checked_add(duration),
         }
     }
 }
 
 impl Timeout for DurationTimeout {
     fn is_complete(&self) -> bool {
-        Instant::now() >= self.deadline
+        match self.deadline {
+            Some(deadline) => Instant::now() >= deadline,
+            None => false,
+        }
     }
 }
 
